@@ -159,11 +159,20 @@ def replay_exported(run, scens, n_sample, seed, estimators=ESTIMATORS, pack_size
         scens = pick
     else:
         run.cov["exhaustive"] = True
-    packs = pack_by_request(scens, pack_size)
+    def has_null(sc):
+        return any(u.get("nullRes") for u in sc["units"])
+
+    packs = pack_by_request(scens, pack_size, extra_key=has_null)
     jobs = []
     for n, pk in enumerate(packs):
         est = estimators[n % len(estimators)]
-        jobs.append(([s["sc"] for s in pk], [s["expect"] for s in pk], est, seed + n))
+        scs = [dict(s["sc"]) for s in pk]
+        if has_null(scs[0]):
+            # a missing value for another requested estimand needs a run with two estimands (conformal estimators)
+            est = ["nonparametric", "gaussian"][n % 2]
+            for sc in scs:
+                sc["multiEst"] = True
+        jobs.append((scs, [s["expect"] for s in pk], est, seed + n))
     results = common.pool().map(_job_replay, jobs, chunksize=1)
     for job, bads in zip(jobs, results):
         if len(run.violations) >= 40:
@@ -187,8 +196,10 @@ def random_traces(run, n_runs, seed, units=(4, 12), pack_size=6, allow_mismatch=
         policy = policies[n % len(policies)] if policies else rnd.choice(["drop", "zero"])
         off = rnd.random() < 0.35
         levels = rnd.choice(ledger.LEVEL_LISTS)
+        est_n = estimators[n % len(estimators)]
+        multi = est_n != "bootstrap" and n % 4 == 0
         pack = [
-            ledger.random_scenario(rnd, rnd.randint(*units), policy, off, levels, allow_mismatch=allow_mismatch, p_weird=p_weird)
+            ledger.random_scenario(rnd, rnd.randint(*units), policy, off, levels, allow_mismatch=allow_mismatch, p_weird=p_weird, multi_est=multi)
             for _ in range(pack_size)
         ]
         kw = {}
